@@ -42,7 +42,7 @@ PtProbes == { Xfer(0, "uusdc", 1000, [FwINT("U") EXCEPT !.pt = n], <<>>) : n \in
 NoCtlProbes == { Xfer(0, "uusdc", 1000, FwINT("U"), <<[id |-> "SWAP", at |-> "FEE", fees |-> <<Bps(100, "F1")>>]>>),
                  Xfer(0, "uusdc", 1000, [FwINT("U") EXCEPT !.pid = "IBC"], <<>>),
                  Xfer(0, "uusdc", 1000, [FwCCTP(0, "MINT_A", "NONE") EXCEPT !.pid = "IBC"], <<>>) }
-MCAlphabet == NoCtlProbes \cup ProtoMsgs \cup CCMsgs \cup ActMsgs \cup ParamMsgs \cup OtherSigners \cup Probes \cup PtProbes \cup {ReimportIn}
+MCAlphabet == {EnvIn("nextblock", "")} \cup NoCtlProbes \cup ProtoMsgs \cup CCMsgs \cup ActMsgs \cup ParamMsgs \cup OtherSigners \cup Probes \cup PtProbes \cup {ReimportIn}
 SmallAlphabet == { PauseProtocol("AUTH", "CCTP"), UnpauseProtocol("AUTH", "CCTP"), PauseProtocol("AUTH", "INT"),
                    PauseCC("AUTH", "CCTP", <<Cp0>>), PauseCC("AUTH", "CCTP", <<Cp0, Cp1>>), UnpauseCC("AUTH", "CCTP", <<Cp0>>),
                    PauseCC("AUTH", "HYP", <<Cp1>>), PauseCC("AUTH", "CCTP", <<Cp1, CpChan>>), PauseCC("AUTH", "CCTP", <<>>),
